@@ -108,6 +108,9 @@ def main(argv):
                "(kernel, value tuple, backend) run; non-trivial = the untiled loop nest is non-empty")
     ck.assumptions = ["tile size and step are positive at run time", "check=false is only specified when T divides the iteration count",
                       "operand values stay far from int overflow"]
+    ck.trusted += ["harness/emu_launch.hpp (device scheduler emulation: for each work-group, for each work-item; index types of the real backends)",
+                   "g++ 12 as the reference semantics of the emitted C++ text and of the native sequential loop",
+                   "the C expression grammar of OccaProofs/Lemmas/ExprGrammar.lean is unambiguous (not proved)"]
     ck.translate(["gen_loops"])
     ck.prove("C18")
     hb = ck.harness("h_loops")
